@@ -229,7 +229,11 @@ func (a vrAnn) String() string {
 	if f == "" {
 		f = "<no file>"
 	}
-	return fmt.Sprintf("%s %s:%d:%d %q", a.rule, f, a.line, a.col, a.msg)
+	msg := a.msg
+	if len(msg) > 220 {
+		msg = msg[:220] + "..."
+	}
+	return fmt.Sprintf("%s %s:%d:%d %q", a.rule, f, a.line, a.col, msg)
 }
 
 // vrExp is one annotation that must be reported.
@@ -463,7 +467,7 @@ func vrCompact(src string) string {
 }
 
 // vrDescribe prints the sources on one line; when the violation names files only those are printed in full.
-func vrDescribe(files map[string]string, other map[string]string, violation string) string {
+func vrDescribe(files map[string]string, other map[string]string, violation string, useLines bool) string {
 	named := map[string]bool{}
 	for _, m := range []map[string]string{files, other} {
 		for p := range m {
@@ -479,7 +483,28 @@ func vrDescribe(files map[string]string, other map[string]string, violation stri
 			omitted++
 			continue
 		}
-		parts = append(parts, p+": "+vrCompact(files[p]))
+		text := vrCompact(files[p])
+		if strings.HasSuffix(text, "(truncated)") && useLines {
+			// long generated source: the head plus the lines the violation talks about
+			var lines []string
+			seen := map[string]bool{}
+			for _, m := range regexp.MustCompile(regexp.QuoteMeta(p)+`:(\d+)`).FindAllStringSubmatch(violation, -1) {
+				if seen[m[1]] || len(lines) >= 5 {
+					continue
+				}
+				seen[m[1]] = true
+				n := 0
+				fmt.Sscanf(m[1], "%d", &n)
+				lines = append(lines, fmt.Sprintf("line %d: %s", n, vrLineText(files[p], n)))
+			}
+			if len(lines) > 0 {
+				if len(text) > 150 {
+					text = text[:150]
+				}
+				text += " ... " + strings.Join(lines, " ... ") + " ..."
+			}
+		}
+		parts = append(parts, p+": "+text)
 	}
 	if omitted > 0 {
 		parts = append(parts, fmt.Sprintf("(+%d files not involved)", omitted))
@@ -616,7 +641,7 @@ func (en *vrEntry) matchRule(rule string, anns []vrAnn) (string, error) {
 	}
 	var gotS []string
 	for i, a := range got {
-		if i == 6 {
+		if i == 3 {
 			gotS = append(gotS, "...")
 			break
 		}
@@ -833,6 +858,22 @@ func verifReplayCatalogue(fn, obligation string) {
 		return
 	}
 	catalogue := vrCatalogue()
+	if os.Getenv("VERIF_REPLAY_DEBUG") == "coverage" {
+		for _, r := range vrAllRules() {
+			entries, exps := 0, 0
+			for _, en := range catalogue {
+				if vrContains(en.rules, r) {
+					entries++
+				}
+				for _, x := range en.exp {
+					if x.rule == r {
+						exps++
+					}
+				}
+			}
+			fmt.Printf("VERIF-REPLAY coverage %s: %d pairs, %d expected annotations\n", r, entries, exps)
+		}
+	}
 	rules := vrRulesForFunc(fn)
 	var selected []*vrEntry
 	for i := range catalogue {
@@ -899,7 +940,7 @@ func verifReplayCatalogue(fn, obligation string) {
 				note = " (" + en.note + ")"
 			}
 			fmt.Printf("VERIF-REPLAY FAILING-INPUT pair %q%s: previous %s current %s; buf.yaml {%s}: %s\n",
-				en.name, note, vrDescribe(en.prev, en.cur, violation), vrDescribe(en.cur, en.prev, violation), strings.Join(strings.Fields(config), " "), violation)
+				en.name, note, vrDescribe(en.prev, en.cur, violation, en.note != ""), vrDescribe(en.cur, en.prev, violation, true), strings.Join(strings.Fields(config), " "), violation)
 		}
 	}
 	fmt.Printf("VERIF-REPLAY checked %d pairs, %d failing (%d buf breaking runs, %.1fs)\n", checked, failing, env.calls, time.Since(start).Seconds())
@@ -1299,7 +1340,7 @@ func vrCatFieldTypes(c *vrCat) {
 				if from == to {
 					continue
 				}
-				names := []string{fmt.Sprintf("\"%d\"", n), fmt.Sprintf("\"f%d\"", n), "\"" + from + "\"", "\"" + to + "\""}
+				names := []string{fmt.Sprintf("\"%d\"", n), fmt.Sprintf("\"f%d\"", n), fmt.Sprintf("from %q to %q", from, to)}
 				exp = append(exp, vrE("FIELD_SAME_TYPE", "a.proto", mark, names...))
 				if vrWireGroup(from) != vrWireGroup(to) && !(from == "string" && to == "bytes") {
 					exp = append(exp, vrE("FIELD_WIRE_COMPATIBLE_TYPE", "a.proto", mark, names...))
@@ -1364,6 +1405,15 @@ func vrCatFieldTypes(c *vrCat) {
 		vrOne(vrP3("message T {\n  map<string, int32> m = 1;\n  map<string, int32> same = 2;\n}\n")),
 		vrOne(vrP3("message T {\n  map<string, string> m = 1; /*1*/\n  map<string, int32> same = 2;\n}\n")),
 		vrAll3(rules, "a.proto", "/*1*/", "\"value\"")...)
+	c.add("field-type/map-key", rules,
+		vrOne(vrP3("message T {\n  map<string, int32> m = 1;\n  map<int32, string> n = 2;\n}\n")),
+		vrOne(vrP3("message T {\n  map<int64, int32> m = 1; /*1*/\n  map<uint32, string> n = 2; /*2*/\n}\n")),
+		vrE("FIELD_SAME_TYPE", "a.proto", "/*1*/", "\"key\"", "MEntry"), vrE("FIELD_WIRE_COMPATIBLE_TYPE", "a.proto", "/*1*/", "\"key\"", "MEntry"),
+		vrE("FIELD_WIRE_JSON_COMPATIBLE_TYPE", "a.proto", "/*1*/", "\"key\"", "MEntry"), vrE("FIELD_SAME_TYPE", "a.proto", "/*2*/", "\"key\"", "NEntry"))
+	c.add("field-type/editions-delimited-encoding", rules,
+		vrOne(vrEd("message Sub { int32 a = 1; }\nmessage T {\n  Sub becomes_delimited = 1;\n  Sub becomes_prefixed = 2 [features.message_encoding = DELIMITED];\n  Sub same = 3 [features.message_encoding = DELIMITED];\n}\n")),
+		vrOne(vrEd("message Sub { int32 a = 1; }\nmessage T {\n  Sub becomes_delimited = 1 [features.message_encoding = DELIMITED]; /*1*/\n  Sub becomes_prefixed = 2; /*2*/\n  Sub same = 3 [features.message_encoding = DELIMITED];\n}\n")),
+		vrAll3(rules, "a.proto", "/*1*/", "becomes_delimited", "/*2*/", "becomes_prefixed")...)
 	c.add("field-type/group-to-message", rules,
 		vrOne(vrP2("message T {\n  optional group Grp = 1 {\n    optional int32 a = 1;\n  }\n  optional int32 other = 2;\n}\n")),
 		vrOne(vrP2("message T {\n  message Grp {\n    optional int32 a = 1;\n  }\n  optional Grp grp = 1; /*1*/\n  optional int32 other = 2;\n}\n")),
@@ -1445,11 +1495,11 @@ func vrCatFieldAttrs(c *vrCat) {
 	c.add("field-default", []string{"FIELD_SAME_DEFAULT"},
 		vrOne(vrP2("enum D { D_A = 1; D_B = 2; }\nmessage T {\n  optional int32 i = 1 [default = 5];\n  optional string s = 2 [default = \"abc\"];\n  optional D e = 3 [default = D_A];\n  optional double f = 4 [default = 1.5];\n  optional bool b = 5 [default = true];\n  optional int32 gains = 6;\n  optional int32 loses = 7 [default = 9];\n  optional int64 same = 8 [default = -7];\n  optional string none = 9;\n  optional bytes by = 10 [default = \"xy\"];\n  message N {\n    optional uint64 u = 1 [default = 10];\n  }\n}\n")),
 		vrOne(vrP2("enum D { D_A = 1; D_B = 2; }\nmessage T {\n  optional int32 i = 1 [default = 6]; /*1*/\n  optional string s = 2 [default = \"abd\"]; /*2*/\n  optional D e = 3 [default = D_B]; /*3*/\n  optional double f = 4 [default = 2.5]; /*4*/\n  optional bool b = 5 [default = false]; /*5*/\n  optional int32 gains = 6 [default = 3]; /*6*/\n  optional int32 loses = 7; /*7*/\n  optional int64 same = 8 [default = -7];\n  optional string none = 9;\n  optional bytes by = 10 [default = \"xz\"]; /*10*/\n  message N {\n    optional uint64 u = 1 [default = 11]; /*11*/\n  }\n}\n")),
-		vrE("FIELD_SAME_DEFAULT", "a.proto", "/*1*/", "\"i\"", "5", "6"), vrE("FIELD_SAME_DEFAULT", "a.proto", "/*2*/", "\"s\"", "abc", "abd"),
+		vrE("FIELD_SAME_DEFAULT", "a.proto", "/*1*/", "\"i\"", "from 5 to 6"), vrE("FIELD_SAME_DEFAULT", "a.proto", "/*2*/", "\"s\"", "abc", "abd"),
 		vrE("FIELD_SAME_DEFAULT", "a.proto", "/*3*/", "\"e\"", "D_A", "D_B"), vrE("FIELD_SAME_DEFAULT", "a.proto", "/*4*/", "\"f\"", "1.5", "2.5"),
-		vrE("FIELD_SAME_DEFAULT", "a.proto", "/*5*/", "\"b\"", "true", "false"), vrE("FIELD_SAME_DEFAULT", "a.proto", "/*6*/", "\"gains\"", "3"),
-		vrE("FIELD_SAME_DEFAULT", "a.proto", "/*7*/", "\"loses\"", "9"), vrE("FIELD_SAME_DEFAULT", "a.proto", "/*10*/", "\"by\""),
-		vrE("FIELD_SAME_DEFAULT", "a.proto", "/*11*/", "\"u\"", "10", "11"))
+		vrE("FIELD_SAME_DEFAULT", "a.proto", "/*5*/", "\"b\"", "true", "false"), vrE("FIELD_SAME_DEFAULT", "a.proto", "/*6*/", "\"gains\"", "to 3"),
+		vrE("FIELD_SAME_DEFAULT", "a.proto", "/*7*/", "\"loses\"", "from 9"), vrE("FIELD_SAME_DEFAULT", "a.proto", "/*10*/", "\"by\""),
+		vrE("FIELD_SAME_DEFAULT", "a.proto", "/*11*/", "\"u\"", "from 10 to 11"))
 	c.add("field-default/extension", []string{"FIELD_SAME_DEFAULT"},
 		vrOne(vrP2("message X { extensions 10 to 20; }\nextend X {\n  optional int32 ext = 10 [default = 1];\n}\n")),
 		vrOne(vrP2("message X { extensions 10 to 20; }\nextend X {\n  optional int32 ext = 10 [default = 2]; /*1*/\n}\n")),
@@ -1458,14 +1508,14 @@ func vrCatFieldAttrs(c *vrCat) {
 	c.add("field-oneof-membership", []string{"FIELD_SAME_ONEOF", "ONEOF_NO_DELETE"},
 		vrOne(vrP3("message T {\n  int32 joins = 1;\n  oneof first {\n    int32 leaves = 2;\n    int32 moves = 3;\n    int32 stays = 4;\n  }\n  oneof second {\n    int32 anchor = 5;\n  }\n  int32 outside = 6;\n  message N {\n    oneof o { string x = 1; string y = 2; }\n  }\n}\n")),
 		vrOne(vrP3("message T {\n  int32 leaves = 2; /*2*/\n  oneof first {\n    int32 joins = 1; /*1*/\n    int32 stays = 4;\n  }\n  oneof second {\n    int32 anchor = 5;\n    int32 moves = 3; /*3*/\n  }\n  int32 outside = 6;\n  message N {\n    oneof o { string x = 1; }\n    string y = 2; /*4*/\n  }\n}\n")),
-		vrE("FIELD_SAME_ONEOF", "a.proto", "/*1*/", "joins"), vrE("FIELD_SAME_ONEOF", "a.proto", "/*2*/", "leaves"),
+		vrE("FIELD_SAME_ONEOF", "a.proto", "/*1*/", "joins", "outside to inside"), vrE("FIELD_SAME_ONEOF", "a.proto", "/*2*/", "leaves", "inside to outside"),
 		vrE("FIELD_SAME_ONEOF", "a.proto", "/*3*/", "moves", "first", "second"), vrE("FIELD_SAME_ONEOF", "a.proto", "/*4*/", "\"y\""))
 
 	// UTF8 validation: editions feature on the field / file, and java_string_check_utf8
 	c.add("field-utf8-validation/editions", []string{"FIELD_SAME_UTF8_VALIDATION"},
 		vrOne(vrEd("message T {\n  string a = 1;\n  string b = 2 [features.utf8_validation = NONE];\n  string same = 3 [features.utf8_validation = NONE];\n  bytes not_string = 4;\n}\n")),
 		vrOne(vrEd("message T {\n  string a = 1 [features.utf8_validation = NONE]; /*1*/\n  string b = 2; /*2*/\n  string same = 3 [features.utf8_validation = NONE];\n  bytes not_string = 4;\n}\n")),
-		vrE("FIELD_SAME_UTF8_VALIDATION", "a.proto", "/*1*/", "\"a\"", "VERIFY", "NONE"), vrE("FIELD_SAME_UTF8_VALIDATION", "a.proto", "/*2*/", "\"b\"", "NONE", "VERIFY"))
+		vrE("FIELD_SAME_UTF8_VALIDATION", "a.proto", "/*1*/", "\"a\"", "from VERIFY to NONE"), vrE("FIELD_SAME_UTF8_VALIDATION", "a.proto", "/*2*/", "\"b\"", "from NONE to VERIFY"))
 	c.add("field-utf8-validation/proto2-to-proto3", []string{"FIELD_SAME_UTF8_VALIDATION", "FILE_SAME_SYNTAX"},
 		vrOne("syntax = \"proto2\";\npackage p;\nmessage T {\n  optional string s = 1;\n  optional bytes b = 2;\n  optional int32 i = 3;\n}\n"),
 		vrOne("syntax = \"proto3\"; /*0*/\npackage p;\nmessage T {\n  optional string s = 1; /*1*/\n  optional bytes b = 2;\n  optional int32 i = 3;\n}\n"),
@@ -1498,12 +1548,12 @@ func vrCatMessagesEnums(c *vrCat) {
 		vrOne("syntax = \"proto2\"; /*0*/\npackage p;\nmessage M { /*1*/\n}\nenum E { /*2*/\n  E_ZERO = 0;\n}\n"),
 		vrE("FILE_SAME_SYNTAX", "a.proto", "/*0*/", "proto3", "proto2"),
 		vrE("MESSAGE_SAME_JSON_FORMAT", "a.proto", "/*1*/", "\"M\""), vrE("ENUM_SAME_JSON_FORMAT", "a.proto", "/*2*/", "\"E\""),
-		vrE("ENUM_SAME_TYPE", "a.proto", "/*2*/", "\"E\"", "open", "closed"))
+		vrE("ENUM_SAME_TYPE", "a.proto", "/*2*/", "\"E\"", "from open to closed"))
 	c.add("enum-type/editions", []string{"ENUM_SAME_TYPE"},
 		vrOne(vrEd("enum Opens {\n  option features.enum_type = CLOSED;\n  OPENS_ZERO = 0;\n}\nenum Closes {\n  CLOSES_ZERO = 0;\n}\nenum Same {\n  option features.enum_type = CLOSED;\n  SAME_ZERO = 0;\n}\nmessage W {\n  enum In {\n    IN_ZERO = 0;\n  }\n}\n")),
 		vrOne(vrEd("enum Opens { /*1*/\n  OPENS_ZERO = 0;\n}\nenum Closes {\n  option features.enum_type = CLOSED; /*2*/\n  CLOSES_ZERO = 0;\n}\nenum Same {\n  option features.enum_type = CLOSED;\n  SAME_ZERO = 0;\n}\nmessage W {\n  enum In {\n    option features.enum_type = CLOSED; /*3*/\n    IN_ZERO = 0;\n  }\n}\n")),
-		vrE("ENUM_SAME_TYPE", "a.proto", "/*1*/", "\"Opens\"", "closed", "open"), vrE("ENUM_SAME_TYPE", "a.proto", "/*2*/", "\"Closes\"", "open", "closed"),
-		vrE("ENUM_SAME_TYPE", "a.proto", "/*3*/", "\"In\"", "open", "closed"))
+		vrE("ENUM_SAME_TYPE", "a.proto", "/*1*/", "\"Opens\"", "from closed to open"), vrE("ENUM_SAME_TYPE", "a.proto", "/*2*/", "\"Closes\"", "from open to closed"),
+		vrE("ENUM_SAME_TYPE", "a.proto", "/*3*/", "\"In\"", "from open to closed"))
 }
 
 // --- services and RPCs ---------------------------------------------------------------------------------------
@@ -1518,8 +1568,8 @@ func vrCatRPC(c *vrCat) {
 	c.add("rpc-signature-changes", rules,
 		vrOne(vrP3(msgs+"service Api {\n  rpc Same(Req) returns (Res);\n  rpc ClientStream(Req) returns (Res);\n  rpc ClientUnary(stream Req) returns (Res);\n  rpc ServerStream(Req) returns (Res);\n  rpc ServerUnary(Req) returns (stream Res);\n  rpc ReqType(Req) returns (Res);\n  rpc ResType(Req) returns (Res);\n  rpc Both(stream Req) returns (stream Res);\n}\n")),
 		vrOne(vrP3(msgs+"service Api {\n  rpc Same(Req) returns (Res);\n  rpc ClientStream(stream Req) returns (Res); /*1*/\n  rpc ClientUnary(Req) returns (Res); /*2*/\n  rpc ServerStream(Req) returns (stream Res); /*3*/\n  rpc ServerUnary(Req) returns (Res); /*4*/\n  rpc ReqType(Req2) returns (Res); /*5*/\n  rpc ResType(Req) returns (Res2); /*6*/\n  rpc Both(stream Req) returns (stream Res);\n  rpc Fresh(Req) returns (Res);\n}\n")),
-		vrE("RPC_SAME_CLIENT_STREAMING", "a.proto", "/*1*/", "ClientStream", "Api"), vrE("RPC_SAME_CLIENT_STREAMING", "a.proto", "/*2*/", "ClientUnary", "Api"),
-		vrE("RPC_SAME_SERVER_STREAMING", "a.proto", "/*3*/", "ServerStream", "Api"), vrE("RPC_SAME_SERVER_STREAMING", "a.proto", "/*4*/", "ServerUnary", "Api"),
+		vrE("RPC_SAME_CLIENT_STREAMING", "a.proto", "/*1*/", "ClientStream", "Api", "client unary to client streaming"), vrE("RPC_SAME_CLIENT_STREAMING", "a.proto", "/*2*/", "ClientUnary", "Api", "client streaming to client unary"),
+		vrE("RPC_SAME_SERVER_STREAMING", "a.proto", "/*3*/", "ServerStream", "Api", "server unary to server streaming"), vrE("RPC_SAME_SERVER_STREAMING", "a.proto", "/*4*/", "ServerUnary", "Api", "server streaming to server unary"),
 		vrE("RPC_SAME_REQUEST_TYPE", "a.proto", "/*5*/", "ReqType", "p.Req", "p.Req2"), vrE("RPC_SAME_RESPONSE_TYPE", "a.proto", "/*6*/", "ResType", "p.Res", "p.Res2"))
 	c.add("rpc-idempotency-level", rules,
 		vrOne(vrP3(msgs+"service Api {\n  rpc Changes(Req) returns (Res) {\n    option idempotency_level = NO_SIDE_EFFECTS;\n  }\n  rpc Gains(Req) returns (Res);\n  rpc Loses(Req) returns (Res) {\n    option idempotency_level = IDEMPOTENT;\n  }\n  rpc Same(Req) returns (Res) {\n    option idempotency_level = IDEMPOTENT;\n  }\n}\n")),
